@@ -7,3 +7,11 @@ import J5V.Props.C15
 #print axioms J5V.Props.C15.C15_nothing_lost
 #print axioms J5V.Props.C15.C15_enum_info_kept
 #print axioms J5V.Props.C15.C15_list_rules_kept
+#print axioms J5V.Props.C15.C15_src_exported_fields_paired
+#print axioms J5V.Props.C15.C15_src_importers_copy
+#print axioms J5V.Props.C15.C15_src_importers_exist
+#print axioms J5V.Props.C15.C15_src_later_reads
+#print axioms J5V.Props.C15.C15_src_switch_field
+#print axioms J5V.Props.C15.C15_src_switch_root
+#print axioms J5V.Props.C15.C15_src_switch_inner
+#print axioms J5V.Props.C15.C15_src_field_impls
